@@ -114,6 +114,21 @@ def run(ctx):
                     s = s[[bool(b) for b in mk]] if as_list else s[np.asarray(mk)]
                     ops.append(("IMask", mk))
                     cur_idx = [cur_idx[i] for i in range(m) if mk[i]]
+                elif kind == "slice" and nsname != "torch" and ctx.rng.random() < 0.35:
+                    # a slice with a NEGATIVE step (torch itself rejects those): open, negative and out-of-range ends, clipped the way
+                    # Python sequences clip them; the model sees the equivalent index list
+                    for _ in range(20):
+                        sl = slice(ctx.rng.choice([None, -1, -2, m - 1, m + 3, m // 2, -m]), ctx.rng.choice([None, None, -4, 0, -m - 2, 1, -m]),
+                                   ctx.rng.choice([-1, -1, -2, -3]))
+                        il = list(range(m))[sl]
+                        if il:
+                            break
+                    else:
+                        sl, il = slice(None, None, -1), list(range(m))[::-1]
+                    s = s[sl]
+                    ops.append(("IList", il))
+                    case = dict(case, negative_step_slices=case.get("negative_step_slices", []) + [[sl.start, sl.stop, sl.step]])
+                    cur_idx = [cur_idx[i] for i in il]
                 elif kind == "slice":
                     a, b, st = idx_list("slice", m, ctx.rng)
                     s = s[a:b:st]
